@@ -206,7 +206,7 @@ Qed.
 
 (* ---- the statement about one Step, and how it is assembled ---- *)
 Section StepSpec.
-  Variables fPPC fPRK fWDM : N.
+  Variables fPPC fPRK fWDM fStopped : N.
 
   (* the address the opcode / the operand byte of the step that led to s' was fetched from, as the interpreters
      compute it: uint32(RK)<<16 | uint32(PC)  and  RK : PC+1 (wrapping inside the bank) *)
@@ -221,13 +221,14 @@ Section StepSpec.
      registered at the address the opcode is then fetched from, then the fetch of the opcode from that address
      (oldest event of tC), then the instruction; the only callback in tC is OnWDM, present iff registered and the
      opcode is $42; for opcode $42 the rest of tC is exactly the read of the operand byte v at PBR:PC+1 and (if
-     registered) OnWDM(v), and the WDM field holds v *)
+     registered) OnWDM(v), and the WDM field holds v; unless that opcode is $DB the Stopped field keeps its value *)
   Definition step_cb (s s' : st) : Prop :=
     onpc s' = onpc s /\ onwdm s' = onwdm s /\
     exists tA tC' opcode v,
       trace s' = (tC' ++ [EvR (fetch_addr s') opcode]) ++ pc_ev s s' ++ tA ++ trace s /\
       cbs tA = [] /\ cbs tC' = wdm_ev s opcode v /\
-      (opcode = 66 -> tC' = wdm_ev s opcode v ++ [EvR (operand_addr s') v] /\ get fWDM s' = v).
+      (opcode = 66 -> tC' = wdm_ev s opcode v ++ [EvR (operand_addr s') v] /\ get fWDM s' = v) /\
+      (opcode <> 219 -> get fStopped s' = get fStopped s).
 
   Lemma cbs_pc_ev s s' : cbs (pc_ev s s') = pc_ev s s'.
   Proof. unfold pc_ev. destruct (onpc s (fetch_addr s')); reflexivity. Qed.
@@ -238,7 +239,7 @@ Section StepSpec.
   Lemma step_cb_cbs s s' : step_cb s s' ->
     exists opcode v, cbs (trace s') = wdm_ev s opcode v ++ pc_ev s s' ++ cbs (trace s).
   Proof.
-    intros (_ & _ & tA & tC' & o & v & E & CA & CC & _). exists o, v.
+    intros (_ & _ & tA & tC' & o & v & E & CA & CC & _ & _). exists o, v.
     rewrite E. rewrite !cbs_app. rewrite CA, CC, cbs_pc_ev. simpl. rewrite app_nil_r. reflexivity.
   Qed.
 
@@ -246,32 +247,34 @@ Section StepSpec.
      then the OnPC lookup at the address the opcode was then read from *)
   Definition fetched (s s6 : st) (op : Z) : Prop :=
     onpc s6 = onpc s /\ onwdm s6 = onwdm s /\
+    get fStopped s6 = get fStopped s /\
     exists tA, trace s6 = EvR (fetch_addr s6) op :: (if onpc s (fetch_addr s6) then [EvPC (fetch_addr s6)] else []) ++ tA ++ trace s /\
                cbs tA = [].
 
   Lemma fetched_intro W s s1 s6 a op :
-    fext W s s1 ->
+    fext W s s1 -> W fStopped = false ->
     trace s6 = EvR a op :: (if onpc s1 a then [EvPC a] else []) ++ trace s1 ->
-    onpc s6 = onpc s1 -> onwdm s6 = onwdm s1 -> fetch_addr s6 = a -> fetched s s6 op.
+    onpc s6 = onpc s1 -> onwdm s6 = onwdm s1 -> get fStopped s6 = get fStopped s1 -> fetch_addr s6 = a -> fetched s s6 op.
   Proof.
-    intros ([tA [E C]] & P & D & _) Et P6 D6 Ea. unfold fetched. rewrite Ea.
-    split; [congruence|]. split; [congruence|]. exists tA. split; [|exact C].
+    intros ([tA [E C]] & P & D & F) HWs Et P6 D6 S6 Ea. unfold fetched. rewrite Ea.
+    split; [congruence|]. split; [congruence|]. split; [rewrite S6; apply F; exact HWs|]. exists tA. split; [|exact C].
     rewrite Et, E, P. reflexivity.
   Qed.
 
-  (* opcode other than $42: everything after the fetch was quiet and kept PPC / PRK *)
+  (* opcode other than $42: everything after the fetch was quiet and kept PPC / PRK - and Stopped unless the opcode is $DB *)
   Lemma step_cb_quiet W s s6 opcode s' :
-    W fPPC = false -> W fPRK = false ->
+    W fPPC = false -> W fPRK = false -> (opcode <> 219 -> W fStopped = false) ->
     fetched s s6 opcode -> opcode <> 66 -> fext W s6 s' -> step_cb s s'.
   Proof.
-    intros HW1 HW2 (P6 & D6 & tA & E6 & CA) Hne ([t [E C]] & P & D & F).
+    intros HW1 HW2 HW3 (P6 & D6 & S6 & tA & E6 & CA) Hne ([t [E C]] & P & D & F).
     assert (Efa : fetch_addr s' = fetch_addr s6).
     { unfold fetch_addr. rewrite (F fPPC HW1), (F fPRK HW2). reflexivity. }
     split; [congruence|]. split; [congruence|].
     exists tA, t, opcode, 0. unfold pc_ev, wdm_ev. rewrite Efa.
     assert (E66 : (opcode =? 66) = false) by (apply Z.eqb_neq; exact Hne). rewrite E66, andb_false_r.
-    split; [|split; [exact CA|split; [exact C|intro; contradiction]]].
-    rewrite E, E6. rewrite <- app_assoc. reflexivity.
+    split; [|split; [exact CA|split; [exact C|split; [intro; contradiction|]]]].
+    - rewrite E, E6. rewrite <- app_assoc. reflexivity.
+    - intro H219. rewrite (F fStopped (HW3 H219)). exact S6.
   Qed.
 
   (* opcode $42: nothing but the operand read and the callback happened after the fetch *)
@@ -280,15 +283,16 @@ Section StepSpec.
     fetch_addr s' = fetch_addr s6 ->
     onpc s' = onpc s6 -> onwdm s' = onwdm s6 ->
     trace s' = (if onwdm s6 then [EvWDM v] else []) ++ EvR (operand_addr s') v :: trace s6 ->
-    get fWDM s' = v -> step_cb s s'.
+    get fWDM s' = v -> get fStopped s' = get fStopped s6 -> step_cb s s'.
   Proof.
-    intros (P6 & D6 & tA & E6 & CA) Ea P D E Hv.
+    intros (P6 & D6 & S6 & tA & E6 & CA) Ea P D E Hv HS.
     split; [congruence|]. split; [congruence|].
     exists tA, ((if onwdm s6 then [EvWDM v] else []) ++ [EvR (operand_addr s') v]), 66, v.
     unfold pc_ev, wdm_ev. rewrite Ea. rewrite D6 in *. change (66 =? 66) with true. rewrite andb_true_r.
-    split; [|split; [exact CA|split; [|intros _; split; [reflexivity|exact Hv]]]].
+    split; [|split; [exact CA|split; [|split; [intros _; split; [reflexivity|exact Hv]|]]]].
     - rewrite E, E6. rewrite <- !app_assoc. reflexivity.
     - rewrite cbs_app. destruct (onwdm s); reflexivity.
+    - intros _. congruence.
   Qed.
 
   (* ---- the clause in readable form: addresses as PBR * 65536 + PC ---- *)
@@ -309,22 +313,61 @@ Section StepSpec.
       (* WDM: the operand byte read at a1 is what the callback receives and what the WDM field holds *)
       (opcode = 66 -> tC = wdm ++ [EvR a1 v; EvR a opcode] /\ get fWDM s' = v).
 
-  Lemma callbacks_clause_intro s s' :
-    0 <= get fPRK s' < 256 -> 0 <= get fPPC s' < 65536 -> step_cb s s' -> callbacks_clause s s'.
+  (* the callbacks clause and, for the SAME fetched opcode, the "never before" half of the stop clause: a step that
+     changes the Stopped field fetched opcode $DB (STP) *)
+  Definition step_clause (s s' : st) : Prop :=
+    onpc s' = onpc s /\ onwdm s' = onwdm s /\
+    let a := get fPRK s' * 65536 + get fPPC s' in
+    let a1 := get fPRK s' * 65536 + (get fPPC s' + 1) mod 65536 in
+    let pc := if onpc s a then [EvPC a] else [] in
+    exists tA tC opcode v,
+      let wdm := if onwdm s && (opcode =? 66) then [EvWDM v] else [] in
+      (cbs (trace s') = wdm ++ pc ++ cbs (trace s) /\
+       trace s' = tC ++ pc ++ tA ++ trace s /\ cbs tA = [] /\
+       (exists tC', tC = tC' ++ [EvR a opcode]) /\ cbs tC = wdm /\
+       (opcode = 66 -> tC = wdm ++ [EvR a1 v; EvR a opcode] /\ get fWDM s' = v)) /\
+      (get fStopped s' <> get fStopped s -> opcode = 219).
+
+  Lemma step_clause_intro s s' :
+    0 <= get fPRK s' < 256 -> 0 <= get fPPC s' < 65536 -> step_cb s s' -> step_clause s s'.
   Proof.
-    intros Hk Hp H. pose proof (step_cb_cbs s s' H) as Hc. destruct H as (P & D & tA & tC' & o & v & E & CA & CC & H4).
+    intros Hk Hp H. pose proof (step_cb_cbs s s' H) as Hc. destruct H as (P & D & tA & tC' & o & v & E & CA & CC & H4 & H5).
     assert (Ea : fetch_addr s' = get fPRK s' * 65536 + get fPPC s') by (unfold fetch_addr; rewrite lor_shl16 by assumption; reflexivity).
     assert (Ea1 : operand_addr s' = get fPRK s' * 65536 + (get fPPC s' + 1) mod 65536).
     { unfold operand_addr. rewrite lor_shl16; [reflexivity|assumption|]. unfold add16. apply Z.mod_pos_bound. lia. }
-    unfold callbacks_clause. split; [exact P|]. split; [exact D|]. cbv zeta.
+    unfold step_clause. split; [exact P|]. split; [exact D|]. cbv zeta.
     unfold pc_ev, wdm_ev in *. rewrite Ea, Ea1 in *.
     exists tA, (tC' ++ [EvR (get fPRK s' * 65536 + get fPPC s') o]), o, v.
+    split; [|intro Hs; destruct (Z.eq_dec o 219) as [E9|E9]; [exact E9 | exfalso; apply Hs; exact (H5 E9)]].
     split.
     { rewrite E. rewrite !cbs_app. rewrite CA, CC. simpl. rewrite app_nil_r.
       destruct (onpc s _); reflexivity. }
     split; [exact E|]. split; [exact CA|]. split; [exists tC'; reflexivity|].
     split; [rewrite cbs_app, CC; simpl; apply app_nil_r|].
     intro Ho. destruct (H4 Ho) as [E4 Hv]. split; [|exact Hv]. rewrite E4. rewrite <- app_assoc. reflexivity.
+  Qed.
+
+  Lemma step_clause_callbacks s s' : step_clause s s' -> callbacks_clause s s'.
+  Proof.
+    intros (P & D & tA & tC & o & v & H & _). split; [exact P|]. split; [exact D|]. exists tA, tC, o, v. exact H.
+  Qed.
+
+  Lemma callbacks_clause_intro s s' :
+    0 <= get fPRK s' < 256 -> 0 <= get fPPC s' < 65536 -> step_cb s s' -> callbacks_clause s s'.
+  Proof. intros Hk Hp H. apply step_clause_callbacks. apply step_clause_intro; assumption. Qed.
+
+  (* the stop half alone, tied to the fetch event: the opcode is the byte of the read event at a = PBR:PC that follows
+     interrupt entry and the OnPC callback *)
+  Definition stop_clause (s s' : st) : Prop :=
+    let a := get fPRK s' * 65536 + get fPPC s' in
+    let pc := if onpc s a then [EvPC a] else [] in
+    exists tA tC opcode,
+      trace s' = tC ++ pc ++ tA ++ trace s /\ cbs tA = [] /\ (exists tC', tC = tC' ++ [EvR a opcode]) /\
+      (get fStopped s' <> get fStopped s -> opcode = 219).
+
+  Lemma step_clause_stop s s' : step_clause s s' -> stop_clause s s'.
+  Proof.
+    intros (_ & _ & tA & tC & o & v & (_ & E & CA & EC & _) & H). exists tA, tC, o. auto.
   Qed.
 
   (* the clause as worded in the property: when the WDM callback ran in this step (it is then the newest event), it
@@ -371,9 +414,9 @@ Qed.
 Section Runs.
   Variable step : st -> res (Z * bool).
   Variable Good : st -> Prop.
-  Variables fPPC fPRK fWDM : N.
+  Variables fPPC fPRK fWDM fStopped : N.
   Hypothesis good_step : forall s r s', Good s -> step s = Ok r s' -> Good s'.
-  Hypothesis cb_step_ok : forall s r s', Good s -> step s = Ok r s' -> step_cb fPPC fPRK fWDM s s'.
+  Hypothesis cb_step_ok : forall s r s', Good s -> step s = Ok r s' -> step_cb fPPC fPRK fWDM fStopped s s'.
 
   (* the states reached after each of n steps (None: a step panicked) *)
   Fixpoint states (n : nat) (s : st) : option (list st) :=
@@ -390,10 +433,10 @@ Section Runs.
   Definition fetched_at (a : Z) (l : list st) : Z :=
     Z.of_nat (length (filter (fun s' => fetch_addr fPPC fPRK s' =? a) l)).
 
-  Lemma step_count a s s' : step_cb fPPC fPRK fWDM s s' ->
+  Lemma step_count a s s' : step_cb fPPC fPRK fWDM fStopped s s' ->
     count_pc a (trace s') = count_pc a (trace s) + (if onpc s a && (fetch_addr fPPC fPRK s' =? a) then 1 else 0).
   Proof.
-    intro H. destruct (step_cb_cbs _ _ _ _ _ H) as (o & v & E).
+    intro H. destruct (step_cb_cbs _ _ _ _ _ _ H) as (o & v & E).
     rewrite <- (count_pc_cbs a (trace s')), E, !count_pc_app, count_pc_cbs.
     assert (E1 : count_pc a (wdm_ev s o v) = 0) by (unfold wdm_ev; destruct (onwdm s && (o =? 66)); reflexivity).
     assert (E2 : count_pc a (pc_ev fPPC fPRK s s') = if onpc s a && (fetch_addr fPPC fPRK s' =? a) then 1 else 0).
